@@ -30,6 +30,36 @@ CLAIMS = {
         "text": "Decides for every grammar path which frame bits each decoded field is made of: header fields tile the Annex 10 slices, the announced address is f[8..32), a trailing address/parity field is the last 24 bits (equivalently every payload variant consumes 56 bits), identifier re-reads restart at the identifier's first bit; plus the structural necessary conditions of the text round trip (three {:02x} bytes in order; radix-16 parse keeping big-endian bytes 1..3). Genuine defects found are listed in known_findings.json by exact key.",
         "note": TRUST,
     },
+    "C06": {
+        "engine": "ai", "technique": AI_TECH + "; exhaustive tabulation of the extracted closed-form summary over the 2^13 / 2^12 code space against the Annex 10 table",
+        "design_ref": "DESIGN.md §4 C06",
+        "text": "Decides for all 8192 13-bit and all 4096 12-bit altitude codes that the decoded value equals the Annex 10 altitude (25N-1000 with Q; Gillham otherwise; 0/None for all-zero, metric, illegal or unrepresentable codes): the two readers are interpreted abstractly with the code bits as atoms, the resulting piecewise closed form is tabulated and compared with the reference; carriers' slices (f[19..32), f[40..52)) come from the decode model. Exhaustive over the code space; no repository code is executed.",
+        "note": TRUST,
+    },
+    "C07": {
+        "engine": "ai", "technique": AI_TECH + "; normal-form comparison of float formulas; exhaustive tables for integer parts",
+        "design_ref": "DESIGN.md §4 C07",
+        "text": "Decides the type-19 field slices and subtype selection, the airspeed and GNSS-baro transforms on every raw value, and for calculate(): integer components and vertical rate on every raw value/sign (tables), track/speed formulas as normal forms (atan2 argument order, 180/pi, +360 wrap under <0, hypot), None for 'no information' zeros and non-ground-speed subtypes, x4 for the supersonic subtype. Float rounding of track/speed is not decided.",
+        "note": TRUST,
+    },
+    "C08": {
+        "engine": "ai", "technique": AI_TECH + "; const-evaluated table comparison",
+        "design_ref": "DESIGN.md §4 C08",
+        "text": "Decides that both identification carriers read the eight 6-bit characters f[40..88) in order, that exactly code 32 is dropped and every kept character depends on its own 6 bits, that the evaluated 64-entry table equals the Annex 10 set, and the type-coding/category fields. BDS selection by 0x20 is decided under C10.",
+        "note": TRUST,
+    },
+    "C09": {
+        "engine": "ai", "technique": AI_TECH + " through both bit-shuffling implementations",
+        "design_ref": "DESIGN.md §4 C09",
+        "text": "Decides, for DF5, DF21 and type 28, the identity field's slice and the exact result-bit -> frame-bit permutation (hence digits 0-7 and agreement of the three carriers), and the value->variant maps of the two 3-bit enums of type 28. Exhaustive (all bits symbolic).",
+        "note": TRUST,
+    },
+    "C10": {
+        "engine": "ai", "technique": AI_TECH + "; positional layout comparison against DO-260B/ICAO 9871 slices; exhaustive tables for scalings",
+        "design_ref": "DESIGN.md §4 C10",
+        "text": "Decides the ME/OperationStatus/BDS dispatch tables (all identifier values), that every field of the interpreted payloads reads part of exactly one reference slice in order MSB-first, the three scalings on every raw value, and big-endian contexts of multi-byte reads. Field *names* are not compared with the standard (positional comparison); f32 representation error is not decided.",
+        "note": TRUST,
+    },
     "C03": {
         "engine": "ai",
         "technique": "const-evaluated table comparison + GF(2) bit-provenance abstract interpretation of the checksum loop",
